@@ -1,8 +1,664 @@
-"""C18 — bounded run-time contracts only (no proof obligations built yet); see rtc/C18.py and DESIGN.md section 8."""
-from contracts._bounded_only import make_main
+"""C18 — multi-domain integration equals the iterated product quadrature (DESIGN 8/C18).
 
-main = make_main("C18", ["bounded layer only: real functions under executable postconditions on a generated family (rtc/C18.py); nothing is proved"])
+Spec.  For grids g_0..g_{D-1} with n_d >= 1 nodes x_d[.] and weights w_d[.], N = prod n_d and the lexicographic enumeration
+k -> (dig_0(k), ..., dig_{D-1}(k)) (last digit fastest; proved below to be a bijection [0,N) <-> prod [0,n_d)) the product quadrature is
+        S = sum_{k<N} (prod_d w_d[dig_d(k)]) * F(x_0[dig_0(k)], ..., x_{D-1}[dig_{D-1}(k)])            (the nested sum, flattened)
+Obligations, all generated from the real source of grid/ngrid.py (sizes n_d, data, integrand, chunk size symbolic; D in {1, 2, 3} per run):
+  * _chunked_iterator: the generator body satisfies its per-resumption contract (next chunk = next min(size, remaining) items, finishes
+    exactly when the underlying iterator is exhausted, nothing pulled in advance) -- while-loop cut point + obligations at every yield;
+  * integrate(non_vectorized=True): loop invariant "both chunk cursors agree and integral_value is the prefix sum of the flattened sum up to
+    the cursor" (the chunk sum is matched against the specification sum: sum-range / sum-term), hence the result is S for every chunk size;
+  * integrate (vectorised): loop invariant "integral_value = prefix sum up to cursor * n_last" (the partial integral over the last domain is
+    matched, after scaling by the pre-weight, against the block [j n_last, (j+1) n_last) of the flattened sum), D = 1 through Grid.integrate;
+  * size / num_domains / points / weights: length N, k-th item = (x_d[dig_d(k)])_d resp. prod_d w_d[dig_d(k)] -- same digits, same order;
+  * the enumeration is a bijection (mixed-radix lemmas), constructor argument checks.
+itertools.product / islice enter through assumed contracts (pyvc/lazyseq.py); the integrand is an uninterpreted function that vectorises
+over its last argument (premise of the property).  The number of domains is instantiated (1..3 grids, 1..3 repeats), everything else is symbolic.
+"""
+from __future__ import annotations
+
+import os
+
+import z3
+
+from pyvc import framework
+from pyvc import interp as I
+from pyvc import lazyseq as LZ
+from pyvc import npmodel as M
+from pyvc import terms as T
+
+IS, RS = z3.IntSort(), z3.RealSort()
+MOD = "grid.ngrid"
+FQ_INT = f"{MOD}.MultiDomainGrid.integrate"
+FQ_CH = f"{MOD}._chunked_iterator"
+
+
+# ------------------------------------------------------------------------------------------
+# the generator against its per-resumption contract
+# ------------------------------------------------------------------------------------------
+def chunked_iterator_contract(chk):
+    eng = chk.eng
+    E = z3.Function("elem", IS, RS)
+    n, p0, s, i0 = z3.Ints("n_items p_start chunk_size i0")
+    rep = {"what": "chunked"}
+
+    class Sink:
+        def __init__(self, fr, st):
+            self.fr, self.st = fr, st
+
+        def append(self, value):
+            st = self.st
+            st["yields"] += 1
+            it = st["it"]
+            pos_before = st["pos_at_head"]
+            ok_type = isinstance(value, LZ.LazySeq)
+            eng.oblige("yield/is-a-list", z3.BoolVal(ok_type), kind="post")
+            if not ok_type:
+                return
+            want_len = z3.If(s <= n - pos_before, s, n - pos_before)
+            eng.oblige("yield/chunk-is-the-next-min(size,remaining)-items",
+                       z3.And(T.zi(value.length) == want_len, want_len >= 1,
+                              z3.Implies(z3.And(i0 >= 0, i0 < want_len), T.zr(value.item(i0)) == E(pos_before + i0))), kind="post")
+            eng.oblige("yield/nothing-pulled-in-advance", T.zi(it.pos) == pos_before + want_len, kind="post")
+            eng.oblige("yield/one-chunk-per-resumption", z3.BoolVal(st["yields_since_head"] == 0), kind="post")
+            st["yields_since_head"] += 1
+
+        def finished(self):
+            st = self.st
+            # the generator finishes only when the underlying iterator is exhausted, and without a trailing (empty) chunk
+            # (the cursor at the loop head already was at the end: no item is pulled and then dropped)
+            eng.oblige("finish/only-when-exhausted-and-no-item-dropped",
+                       z3.And(T.zi(st["pos_at_head"]) == n, T.zi(st["it"].pos) == n, z3.BoolVal(st["yields_since_head"] == 0)), kind="post")
+
+    def thunk(eng_):
+        LZ.install_itertools(eng_)
+        st = {"yields": 0, "yields_since_head": 0}
+        try:
+            eng_.assume(z3.And(n >= 0, p0 >= 0, p0 <= n, s >= 1))
+            it = LZ.LazyIter(LZ.LazySeq(n, lambda k: E(T.zi(k))), p0)
+            st["it"] = it
+            st["pos_at_head"] = p0
+
+            def inv(fr, k):
+                return z3.And(T.zi(it.pos) >= 0, T.zi(it.pos) <= n)
+
+            def havoc(fr, name, old):
+                if name == "iterator":
+                    it.pos = T.fresh("pos", "int")
+                    st["pos_at_head"] = it.pos
+                    st["yields_since_head"] = 0
+                    return None
+                return None
+            eng_.loop_specs[(FQ_CH, 1)] = I.LoopSpec(inv, havoc=havoc, modifies=["iterator", "chunk"], name="resumptions")
+            eng_.generator_sinks[FQ_CH] = lambda fr: Sink(fr, st)
+            eng_.call(eng_.get_function(MOD, "_chunked_iterator"), [it, s])
+            return st["yields"]
+        finally:
+            eng_.loop_specs.pop((FQ_CH, 1), None)
+            eng_.generator_sinks.pop(FQ_CH, None)
+            LZ.uninstall_itertools(eng_)
+    nund = len(chk.undecided)
+    outs = chk.explore("_chunked_iterator", thunk, func=FQ_CH)
+    kinds = sorted({(o.kind, o.note) for o in outs}, key=str)
+    if len(chk.undecided) == nund:
+        chk.add("_chunked_iterator/paths/finish-and-yield-paths-explored", [],
+                z3.BoolVal(any(o.kind == "return" for o in outs) and any(o.kind == "end" and o.note == "inv-step" for o in outs)
+                           and not any(o.kind == "raise" for o in outs)), func=FQ_CH, meta={"replay": rep, "paths": str(kinds)})
+    for o in outs:
+        chk.add_from_path("_chunked_iterator", o, func=FQ_CH, meta={"replay": rep})
+        if o.kind in ("return", "end"):
+            chk.canary("_chunked_iterator", list(o.pc))
+
+    # a non-positive chunk size is outside the contract; islice rejects negative sizes
+    def t_neg(eng_):
+        LZ.install_itertools(eng_)
+        try:
+            eng_.assume(z3.And(n >= 1, s < 0))
+            it = LZ.LazyIter(LZ.LazySeq(n, lambda k: E(T.zi(k))), 0)
+            eng_.call(eng_.get_function(MOD, "_chunked_iterator"), [it, s])
+        finally:
+            LZ.uninstall_itertools(eng_)
+    outs = chk.explore("_chunked_iterator/negative-size", t_neg, func=FQ_CH)
+    chk.add("_chunked_iterator/raises/negative-size", [], z3.BoolVal(bool(outs) and all(o.kind == "raise" and o.exc == "ValueError" for o in outs)),
+            func=FQ_CH, meta={"replay": rep})
+
+
+# ------------------------------------------------------------------------------------------
+# symbolic grids, integrand, specification
+# ------------------------------------------------------------------------------------------
+class Setup:
+    """D domains; domain d has n_d >= 1 nodes of point dimension dims[d] (1: points of shape (n,), 3: shape (n, 3));
+    repeat > 0: one grid used `repeat` times (num_domains = repeat)."""
+
+    def __init__(self, dims, repeat=0):
+        self.repeat = repeat
+        self.grid_dims = list(dims)                      # dimensions of the grids in grid_list
+        self.dims = list(dims) * repeat if repeat else list(dims)    # dimensions of the domains
+        self.D = len(self.dims)
+        ng = len(self.grid_dims)
+        self.n_grid = [z3.Int(f"n{g}") for g in range(ng)]
+        self.X = [z3.Function(f"x{g}", IS, IS, RS) for g in range(ng)]
+        self.W = [z3.Function(f"w{g}", IS, RS) for g in range(ng)]
+        self.grid_of = [0] * self.D if repeat else list(range(self.D))
+        self.n = [self.n_grid[g] for g in self.grid_of]
+        arity = sum(self.dims)
+        self.F = z3.Function("integrand", *([RS] * arity + [RS]))
+        self.label = ("repeat%d-" % repeat if repeat else "") + "x".join(str(d) for d in dims) + "d"
+
+    def total(self):
+        return M.size_of(self.n)
+
+    def assume_sizes(self, eng):
+        eng.assume(z3.And(*[x >= 1 for x in self.n_grid]))
+
+    def grid_objects(self, eng):
+        cls1 = eng.get_class("grid.basegrid", "OneDGrid")
+        cls3 = eng.get_class("grid.basegrid", "Grid")
+        out = []
+        for g, dim in enumerate(self.grid_dims):
+            X, W, n = self.X[g], self.W[g], self.n_grid[g]
+            o = I.Obj(cls1 if dim == 1 else cls3)          # representation as the constructors leave it (C10 proves their postconditions)
+            if dim == 1:
+                o.fields["_points"] = I.Arr((n,), lambda i, X=X: X(T.zi(i), 0), "real")
+                o.fields["_domain"] = None
+            else:
+                o.fields["_points"] = I.Arr((n, dim), lambda i, c, X=X: X(T.zi(i), T.zi(c)), "real")
+            o.fields["_weights"] = I.Arr((n,), lambda i, W=W: W(T.zi(i)), "real")
+            o.fields["_kdtree"] = None
+            out.append(o)
+        return out
+
+    def make(self, eng):
+        cls = eng.get_class(MOD, "MultiDomainGrid")
+        grids = self.grid_objects(eng)
+        if self.repeat:
+            return eng.new_object(cls, grids, self.repeat), grids
+        return eng.new_object(cls, grids), grids
+
+    # ---- specification ----
+    def digits(self, k):
+        return M.unravel(k, self.n)
+
+    def coords(self, d, i):
+        g = self.grid_of[d]
+        return [self.X[g](T.zi(i), c) for c in range(self.dims[d])]
+
+    def weight_at(self, k):
+        r = z3.RealVal(1)
+        for d, dg in enumerate(self.digits(k)):
+            r = r * self.W[self.grid_of[d]](T.zi(dg))
+        return r
+
+    def value_at(self, k):
+        args = []
+        for d, dg in enumerate(self.digits(k)):
+            args += self.coords(d, dg)
+        return self.F(*args)
+
+    def term(self, k):
+        return self.weight_at(k) * self.value_at(k)
+
+    def integrand_model(self):
+        """The caller's integrand: a function of D points; an array of points in the last slot is mapped element-wise."""
+        dims, F = self.dims, self.F
+
+        def f(eng, *args):
+            if len(args) != len(dims):
+                raise I.PyRaise("TypeError", (f"integrand takes {len(dims)} positional arguments but {len(args)} were given",))
+            flat = []
+            vec = None
+            for d, a in enumerate(args):
+                a = M.unwrap(a)
+                want_nd = 0 if dims[d] == 1 else 1
+                if isinstance(a, I.Arr):
+                    nd = a.ndim
+                elif T.is_scalar(a):
+                    nd = 0
+                else:
+                    raise T.Unsupported(f"integrand argument of type {type(a).__name__}")
+                if nd == want_nd:
+                    if nd == 0:
+                        flat.append(lambda i, a=a: [T.zr(a.fn() if isinstance(a, I.Arr) else a)])
+                    else:
+                        if not M.dim_eq(a.shape[0], dims[d]):
+                            raise T.Unsupported("integrand called with a point of the wrong dimension")
+                        flat.append(lambda i, a=a, d=d: [T.zr(a.fn(c)) for c in range(dims[d])])
+                elif nd == want_nd + 1 and d == len(dims) - 1:
+                    vec = a
+                    if want_nd == 0:
+                        flat.append(lambda i, a=a: [T.zr(a.fn(i))])
+                    else:
+                        flat.append(lambda i, a=a, d=d: [T.zr(a.fn(i, c)) for c in range(dims[d])])
+                else:
+                    raise T.Unsupported("integrand called with an argument of unexpected rank")
+
+            def at(i):
+                xs = []
+                for g in flat:
+                    xs += g(i)
+                return F(*xs)
+            if vec is None:
+                return at(None)
+            return I.Arr((vec.shape[0],), lambda i: at(i), "real")
+        return I.Model("integrand", f)
+
+
+SETUPS_QUICK = [Setup([1]), Setup([3]), Setup([1, 3]), Setup([3, 1]), Setup([3, 3]), Setup([1, 1, 3]), Setup([3, 1, 3]),
+                Setup([1], repeat=1), Setup([3], repeat=2), Setup([1], repeat=3)]
+SETUPS_MORE = [Setup([1, 1]), Setup([3, 3, 3]), Setup([1, 3, 1]), Setup([3, 3, 1]), Setup([1, 1, 1]), Setup([1, 3, 3]), Setup([3, 1, 1]),
+               Setup([3], repeat=1), Setup([1], repeat=2), Setup([3], repeat=3)]
+
+
+def site_hyps(chk, name, o, ps, ranges, func, rep, scale=None):
+    """For every sum reduction in the obligations of path o: match it against the specification prefix sum over the range given by
+    ranges(site_app) -> (a, b) and hand the resulting equation to the path's obligations as a hypothesis."""
+    eqs = []
+    seen = set()
+    for ob in o.obligations:
+        if not T.is_sym(ob.goal):
+            continue
+        for app in framework.find_sites(ob.goal):
+            if app.get_id() in seen or framework.site_of(app).kind != "sum":
+                continue
+            seen.add(app.get_id())
+            a, b, sc = ranges(app)
+            eqs.append(framework.match_sum(chk, f"{name}/reduction{len(seen)}", app, ps, a, b, list(o.pc), func=func, meta={"replay": rep},
+                                           assumptions=list(o.assumptions), scale=sc))
+    for ob in o.obligations:
+        ob.hyps = list(ob.hyps) + eqs
+    return eqs
+
+
+# ------------------------------------------------------------------------------------------
+# integrate, non-vectorised: chunked generators
+# ------------------------------------------------------------------------------------------
+def integrate_chunked(chk, su):
+    eng = chk.eng
+    s = z3.Int("chunk_size")
+    ps = framework.PrefixSum(f"flat_{su.label}", su.term)
+    N = su.total()
+    rep = {"what": "integrate", "setup": su.label, "route": "non-vectorized"}
+    name = f"integrate/non-vectorized/{su.label}"
+
+    def chunk_contract(eng_, f, args, kwargs):
+        it, size = args[0], args[1]
+        st = LZ.stateful_of(eng_, it, symbolic_only=False)
+        if not isinstance(st, LZ.LazyIter):
+            raise T.Unsupported("_chunked_iterator over a composite iterator")
+        eng_.oblige("callee-pre/_chunked_iterator/size>=1", T.compare("ge", size, 1), kind="callee-pre")
+        return LZ.ChunkIter(st, size)
+
+    def thunk(eng_):
+        LZ.install_itertools(eng_)
+        eng_.callee_contracts[FQ_CH] = chunk_contract
+        try:
+            su.assume_sizes(eng_)
+            eng_.assume(s >= 1)
+            mg, grids = su.make(eng_)
+
+            def cursors(fr):
+                # the loop runs over zip(<chunks of A>, <chunks of B>): the state of the iteration are the cursors of A and B
+                z = fr.current_iterator
+                if not (isinstance(z, LZ.ZipIter) and len(z.its) == 2 and all(isinstance(c, LZ.ChunkIter) and isinstance(c.it, LZ.LazyIter) for c in z.its)):
+                    raise T.Unsupported("the chunk loop does not iterate over zip(chunks, chunks)")
+                return z.its[0].it, z.its[1].it
+
+            def inv(fr, k):
+                wi, vi = cursors(fr)
+                iv = fr.load_name("integral_value")
+                return z3.And(T.zi(wi.pos) >= 0, T.zi(wi.pos) <= N, T.zi(vi.pos) == T.zi(wi.pos), T.zr(iv) == ps.P(T.zi(wi.pos)),
+                              T.zi(wi.seq.length) == N, T.zi(vi.seq.length) == N)
+
+            def havoc(fr, nm, old):
+                if nm == "<iterator>":
+                    wi, vi = cursors(fr)
+                    wi.pos = T.fresh("cursor_weights", "int")
+                    vi.pos = T.fresh("cursor_values", "int")
+                    return None
+                if nm == "integral_value":
+                    return T.fresh("integral_value", "real")
+                return None
+            eng_.loop_specs[(FQ_INT, 1)] = I.LoopSpec(inv, havoc=havoc, name="chunks", modifies=["integral_value", "<iterator>"])
+            return eng_.call_method(mg, "integrate", su.integrand_model(), True, s)
+        finally:
+            eng_.loop_specs.pop((FQ_INT, 1), None)
+            eng_.callee_contracts.pop(FQ_CH, None)
+            LZ.uninstall_itertools(eng_)
+    nund = len(chk.undecided)
+    outs = chk.explore(name, thunk, func=FQ_INT)
+    if len(chk.undecided) == nund:       # (paths outside the supported subset are undecided, not a verdict)
+        ok_kinds = any(o.kind == "return" for o in outs) and any(o.kind == "end" for o in outs) and not any(o.kind == "raise" for o in outs)
+        chk.add(f"{name}/paths/loop-exit-and-loop-step-explored-no-raise", [], z3.BoolVal(ok_kinds), func=FQ_INT,
+                meta={"replay": rep, "paths": str(sorted({(o.kind, o.note, o.exc) for o in outs}, key=str))})
+    for oi, o in enumerate(outs):
+        if o.kind == "end":
+            # the chunk sum: terms [cursor, cursor + m) of the flattened sum
+            def ranges(app, o=o):
+                site = framework.site_of(app)
+                cnt = T.zi(site.hi([])) - T.zi(site.lo([])) + 1
+                cur = [u for u in T.subterms(z3.And(*[h for h in o.pc if T.is_sym(h)])).values() if z3.is_const(u) and u.decl().name().startswith("cursor_weights")]
+                c = cur[0]
+                return c, c + cnt - 1, None
+            site_hyps(chk, f"{name}/step{oi}", o, ps, ranges, FQ_INT, rep)
+        for ob in o.obligations:
+            ob.hyps = list(ob.hyps) + ps.unfold()
+        chk.add_from_path(f"{name}/path{oi}", o, func=FQ_INT, meta={"replay": rep})
+        if o.kind == "return":
+            chk.add(f"{name}/post/result-is-the-flattened-product-sum-for-every-chunk-size", list(o.pc), T.zr(o.value) == ps.P(T.zi(N)), func=FQ_INT,
+                    meta={"replay": rep}, assumptions=list(o.assumptions))
+        if o.kind in ("return", "end"):
+            chk.canary(name, list(o.pc))
+
+
+# ------------------------------------------------------------------------------------------
+# integrate, vectorised over the last domain
+# ------------------------------------------------------------------------------------------
+def digit_lemmas(su, j, i):
+    """Mixed-radix facts for k = j * n_last + i, 0 <= i < n_last (hypotheses for the block matching; each is proved as its own lemma):
+    the leading digits of k are the digits of j over the leading sizes and the last digit is i."""
+    nl = su.n[-1]
+    k = j * nl + i
+    full = su.digits(k)
+    pre = M.unravel(j, su.n[:-1]) if su.D > 1 else []
+    return [T.zi(a) == T.zi(b) for a, b in zip(full[:-1], pre)] + [T.zi(full[-1]) == i]
+
+
+def integrate_vectorized(chk, su):
+    eng = chk.eng
+    ps = framework.PrefixSum(f"flat_{su.label}", su.term)
+    N = su.total()
+    nl = su.n[-1]
+    Npre = M.size_of(su.n[:-1]) if su.D > 1 else 1
+    rep = {"what": "integrate", "setup": su.label, "route": "vectorized"}
+    name = f"integrate/vectorized/{su.label}"
+
+    def thunk(eng_):
+        LZ.install_itertools(eng_)
+        try:
+            su.assume_sizes(eng_)
+            mg, grids = su.make(eng_)
+
+            def cursors(fr):
+                # the loop runs over zip(<pre-point combinations>, <pre-weights>): two plain iterators, whatever they are built from
+                z = fr.current_iterator
+                if not (isinstance(z, LZ.ZipIter) and len(z.its) == 2 and all(isinstance(c, LZ.LazyIter) for c in z.its)):
+                    raise T.Unsupported("the loop over the leading domains does not iterate over zip(points, weights)")
+                return z.its[0], z.its[1]
+
+            def inv(fr, k):
+                pi, wi = cursors(fr)
+                iv = fr.load_name("integral_value")
+                return z3.And(T.zi(pi.pos) >= 0, T.zi(pi.pos) <= T.zi(Npre), T.zi(wi.pos) == T.zi(pi.pos), T.zr(iv) == ps.P(T.zi(pi.pos) * nl),
+                              T.zi(pi.seq.length) == T.zi(Npre), T.zi(wi.seq.length) == T.zi(Npre))
+
+            def havoc(fr, nm, old):
+                if nm == "<iterator>":
+                    pi, wi = cursors(fr)
+                    pi.pos = T.fresh("cursor_pre", "int")
+                    wi.pos = T.fresh("cursor_prew", "int")
+                    return None
+                if nm == "integral_value":
+                    return T.fresh("integral_value", "real")
+                return None
+            eng_.loop_specs[(FQ_INT, 1)] = I.LoopSpec(inv, havoc=havoc, name="pre-combinations", modifies=["integral_value", "<iterator>"])
+            return eng_.call_method(mg, "integrate", su.integrand_model())
+        finally:
+            eng_.loop_specs.pop((FQ_INT, 1), None)
+            LZ.uninstall_itertools(eng_)
+    nund = len(chk.undecided)
+    outs = chk.explore(name, thunk, func=FQ_INT)
+    want_end = su.D > 1
+    if len(chk.undecided) == nund:
+        ok_kinds = any(o.kind == "return" for o in outs) and (any(o.kind == "end" for o in outs) == want_end) and not any(o.kind == "raise" for o in outs)
+        chk.add(f"{name}/paths/expected-paths-explored-no-raise", [], z3.BoolVal(ok_kinds), func=FQ_INT,
+                meta={"replay": rep, "paths": str(sorted({(o.kind, o.note, o.exc) for o in outs}, key=str))})
+    for oi, o in enumerate(outs):
+        if o.kind == "end":
+            cur = [u for u in T.subterms(z3.And(*[h for h in o.pc if T.is_sym(h)])).values() if z3.is_const(u) and u.decl().name().startswith("cursor_pre!")]
+            j = cur[0]
+            # lemmas about the digits of j * n_last + i (generic i in the block)
+            tname = f"t_{name.replace('/', '_')}_step{oi}_reduction1"
+            t = z3.Int(f"t_{(name + '/step%d/reduction1' % oi).replace('/', '_')}")
+            i_blk = t - j * nl
+            lem_h = list(o.pc) + [t >= j * nl, t <= j * nl + nl - 1]
+            lemmas = []
+            # Euclid: t = j * n_last + i_blk with 0 <= i_blk < n_last
+            for li, lem in enumerate(digit_lemmas_at(su, t, j, i_blk)):
+                chk.add(f"{name}/step{oi}/lemma/digits-of-the-block-position#{li}", lem_h + lemmas, lem, kind="lemma", func=FQ_INT, meta={"replay": rep})
+                lemmas.append(lem)
+
+            def ranges(app, o=o, j=j):
+                # the partial integral over the last domain, scaled by the pre-weight: block [j n_last, (j+1) n_last) of the flattened sum
+                scale = None
+                for ob in o.obligations:
+                    if ob.kind == "inv-step":
+                        scale = scale_of(ob.goal, app)
+                return j * nl, j * nl + nl - 1, scale
+            eqs = []
+            seen = set()
+            for ob in o.obligations:
+                if not T.is_sym(ob.goal):
+                    continue
+                for app in framework.find_sites(ob.goal):
+                    if app.get_id() in seen or framework.site_of(app).kind != "sum":
+                        continue
+                    seen.add(app.get_id())
+                    a, b, sc = ranges(app)
+                    eqs.append(framework.match_sum(chk, f"{name}/step{oi}/reduction{len(seen)}", app, ps, a, b, list(o.pc) + lemmas_for(lemmas, t), func=FQ_INT,
+                                                   meta={"replay": rep}, assumptions=list(o.assumptions), scale=sc))
+            for ob in o.obligations:
+                ob.hyps = list(ob.hyps) + eqs
+        elif o.kind == "return" and su.D == 1:
+            def ranges1(app):
+                return 0, N - 1, None
+            site_hyps(chk, f"{name}/direct", o, ps, ranges1, FQ_INT, rep)
+        for ob in o.obligations:
+            ob.hyps = list(ob.hyps) + ps.unfold()
+        chk.add_from_path(f"{name}/path{oi}", o, func=FQ_INT, meta={"replay": rep})
+        if o.kind == "return":
+            hy = list(o.pc) + ps.unfold()
+            if su.D == 1:
+                for app in framework.find_sites(T.zr(o.value)):
+                    hy.append(framework.match_sum(chk, f"{name}/result", app, ps, 0, N - 1, list(o.pc), func=FQ_INT, meta={"replay": rep},
+                                                  assumptions=list(o.assumptions)))
+            chk.add(f"{name}/post/result-is-the-flattened-product-sum", hy, T.zr(o.value) == ps.P(T.zi(N)), func=FQ_INT, meta={"replay": rep},
+                    assumptions=list(o.assumptions))
+        if o.kind in ("return", "end"):
+            chk.canary(name, list(o.pc))
+
+
+def digit_lemmas_at(su, t, j, i_blk):
+    """Chain for the digits of t = j * n_last + i_blk: quotient/remainder of the last radix, then (three domains) of the middle radix."""
+    nl = su.n[-1]
+    full = su.digits(t)
+    out = [z3.And(i_blk >= 0, i_blk < nl, t == j * nl + i_blk)]
+    if su.D == 1:
+        return out
+    pre = M.unravel(j, su.n[:-1])
+    if su.D == 2:
+        out.append(T.zi(full[0]) == j)
+        out.append(T.zi(full[1]) == i_blk)
+        return out
+    # D == 3: j = p0 * n1 + p1, t = p0 * (n1 n2) + (p1 n2 + i)
+    n1, n2 = su.n[1], su.n[2]
+    p0, p1 = T.zi(pre[0]), T.zi(pre[1])
+    out.append(z3.And(p1 >= 0, p1 < n1, j == p0 * n1 + p1))
+    out.append(z3.And(p1 * n2 + i_blk >= 0, p1 * n2 + i_blk <= (n1 - 1) * n2 + i_blk, p1 * n2 + i_blk < n1 * n2))
+    out.append(t == p0 * (n1 * n2) + (p1 * n2 + i_blk))
+    out.append(T.zi(full[0]) == p0)
+    out.append(T.zi(full[1]) == p1)
+    out.append(T.zi(full[2]) == i_blk)
+    return out
+
+
+def lemmas_for(lemmas, t):
+    return list(lemmas)
+
+
+def scale_of(goal, app):
+    """The factor multiplying the reduction `app` in the invariant-step goal (integral_value + scale * sum == ...)."""
+    found = []
+
+    def walk(u):
+        if z3.is_app(u) and u.decl().kind() == z3.Z3_OP_MUL:
+            args = [u.arg(k) for k in range(u.num_args())]
+            if any(a.eq(app) for a in args):
+                rest = [a for a in args if not a.eq(app)]
+                r = rest[0]
+                for x in rest[1:]:
+                    r = r * x
+                found.append(r)
+                return
+        for k in range(u.num_args()) if z3.is_app(u) else []:
+            walk(u.arg(k))
+    walk(goal)
+    return found[0] if found else None
+
+
+# ------------------------------------------------------------------------------------------
+# size, num_domains, points, weights: the same enumeration, in the same order
+# ------------------------------------------------------------------------------------------
+def enumerations(chk, su):
+    eng = chk.eng
+    N = su.total()
+    k0 = z3.Int("k0")
+    rep = {"what": "enumeration", "setup": su.label}
+    name = f"enumeration/{su.label}"
+    fq = f"{MOD}.MultiDomainGrid.points"
+
+    def thunk(eng_):
+        LZ.install_itertools(eng_)
+        try:
+            su.assume_sizes(eng_)
+            eng_.assume(z3.And(k0 >= 0, k0 < T.zi(N)))
+            mg, grids = su.make(eng_)
+            fr = I.Frame(eng_, mg.cls.module, I.Env(), mg.cls, mg, "harness")
+            size = fr.getattr(mg, "size")
+            nd = fr.getattr(mg, "num_domains")
+            pts = fr.getattr(mg, "points")
+            wts = fr.getattr(mg, "weights")
+            pts2 = fr.getattr(mg, "points")          # every access gives a fresh enumeration
+            ok_iter = isinstance(pts, LZ.LazyIter) and isinstance(wts, LZ.LazyIter) and pts2 is not pts
+            if not ok_iter:
+                return dict(ok=False)
+            return dict(ok=True, size=size, nd=nd, plen=pts.seq.length, wlen=wts.seq.length, ppos=pts.pos, wpos=wts.pos,
+                        pitem=pts.seq.item(k0), witem=wts.seq.item(k0))
+        finally:
+            LZ.uninstall_itertools(eng_)
+    outs = chk.explore(name, thunk, func=fq)
+    rets = [o for o in outs if o.kind == "return" and o.value.get("ok")]
+    chk.add(f"{name}/post/points-and-weights-are-fresh-lazy-enumerations", [], z3.BoolVal(len(rets) == len(outs) and bool(rets)), func=fq, meta={"replay": rep})
+    for oi, o in enumerate(rets):
+        v = o.value
+        hy = list(o.pc)
+        chk.add(f"{name}/post/size-is-the-product-of-the-grid-sizes", hy, T.zi(v["size"]) == T.zi(N), func=f"{MOD}.MultiDomainGrid.size", meta={"replay": rep})
+        chk.add(f"{name}/post/num_domains", [], z3.BoolVal(v["nd"] == su.D), func=f"{MOD}.MultiDomainGrid.num_domains", meta={"replay": rep})
+        chk.add(f"{name}/post/points-and-weights-enumerate-size-items-from-the-start", hy,
+                z3.And(T.zi(v["plen"]) == T.zi(N), T.zi(v["wlen"]) == T.zi(N), T.zi(v["ppos"]) == 0, T.zi(v["wpos"]) == 0), func=fq, meta={"replay": rep})
+        # k-th point: tuple of the nodes at the digits of k; k-th weight: product of the weights at the same digits
+        item = v["pitem"]
+        goals = [z3.BoolVal(isinstance(item, tuple) and len(item) == su.D)]
+        if isinstance(item, tuple) and len(item) == su.D:
+            for d, (x, dg) in enumerate(zip(item, su.digits(k0))):
+                want = su.coords(d, dg)
+                x = M.unwrap(x)
+                if su.dims[d] == 1:
+                    goals.append(T.zr(x.fn() if isinstance(x, I.Arr) else x) == want[0] if (T.is_scalar(x) or (isinstance(x, I.Arr) and x.ndim == 0)) else z3.BoolVal(False))
+                else:
+                    okshape = isinstance(x, I.Arr) and x.ndim == 1 and M.dim_eq(x.shape[0], su.dims[d])
+                    goals.append(z3.And(*[T.zr(x.fn(c)) == want[c] for c in range(su.dims[d])]) if okshape else z3.BoolVal(False))
+        chk.add(f"{name}/post/kth-point-is-the-tuple-of-nodes-at-the-digits-of-k", hy, z3.And(*goals), func=fq, meta={"replay": rep})
+        chk.add(f"{name}/post/kth-weight-is-the-product-of-weights-at-the-same-digits", hy, T.zr(v["witem"]) == su.weight_at(k0),
+                func=f"{MOD}.MultiDomainGrid.weights", meta={"replay": rep})
+        chk.canary(name, hy)
+
+
+def enumeration_is_a_bijection(chk):
+    """Mixed-radix lemmas: k -> digits(k) maps [0, N) into the index box, is inverted by the row-major formula, and every index vector of
+    the box is hit (so the flattened sum runs over every combination of one node per domain exactly once)."""
+    for D in (2, 3):
+        n = z3.Ints("n0 n1 n2")[:D]
+        idx = z3.Ints("i0 i1 i2")[:D]
+        k = z3.Int("k")
+        N = M.size_of(n)
+        base = [x >= 1 for x in n]
+        saved = M.CURRENT_ENGINE[0]
+
+        class _E:
+            def proves(self, c):
+                s = z3.Solver()
+                s.set("timeout", 2000)
+                s.add(*base)
+                s.add(z3.Not(c))
+                return s.check() == z3.unsat
+        M.CURRENT_ENGINE[0] = _E()
+        try:
+            dg = [T.zi(x) for x in M.unravel(k, n)]
+            flat = T.zi(M.ravel_index(idx, n))
+            back = [T.zi(x) for x in M.unravel(flat, n)]
+        finally:
+            M.CURRENT_ENGINE[0] = saved
+        hk = base + [k >= 0, k < T.zi(N)]
+        fq = "pyvc.lazyseq.product_contract"
+        if D == 2:
+            steps = [("quotient-bounds", z3.And(dg[0] * n[1] <= k, k < dg[0] * n[1] + n[1])), ("first-digit-small", z3.And(dg[0] >= 0, dg[0] < n[0]))]
+        else:
+            steps = [("quotient-bounds", z3.And(dg[0] * (n[1] * n[2]) <= k, k < dg[0] * (n[1] * n[2]) + n[1] * n[2])),
+                     ("first-digit-small", z3.And(dg[0] >= 0, dg[0] < n[0])),
+                     ("remainder", z3.And(k - dg[0] * (n[1] * n[2]) >= 0, k - dg[0] * (n[1] * n[2]) < n[1] * n[2])),
+                     ("second-quotient-bounds", z3.And(dg[1] * n[2] <= k - dg[0] * (n[1] * n[2]), k - dg[0] * (n[1] * n[2]) < dg[1] * n[2] + n[2])),
+                     ("second-digit-small", z3.And(dg[1] >= 0, dg[1] < n[1]))]
+        chk.chain(f"enumeration/bijection/{D}-domains/digits-lie-in-the-index-box", hk, steps, z3.And(*[z3.And(a >= 0, a < b) for a, b in zip(dg, n)]), func=fq)
+        chk.add(f"{D}-domains/row-major-formula-inverts-the-digits".join(["enumeration/bijection/", ""]), hk, T.zi(M.ravel_index(dg, n)) == k, func=fq)
+        hi = base + [z3.And(a >= 0, a < b) for a, b in zip(idx, n)]
+        if D == 2:
+            steps = [("flat-bounds", z3.And(flat >= idx[0] * n[1], flat < idx[0] * n[1] + n[1], flat >= 0)), ("head", idx[0] * n[1] + n[1] <= n[0] * n[1])]
+        else:
+            steps = [("tail", z3.And(idx[1] * n[2] + idx[2] >= 0, idx[1] * n[2] + idx[2] <= (n[1] - 1) * n[2] + idx[2], idx[1] * n[2] + idx[2] < n[1] * n[2])),
+                     ("flat", flat == idx[0] * (n[1] * n[2]) + (idx[1] * n[2] + idx[2])),
+                     ("head", z3.And(idx[0] * (n[1] * n[2]) + n[1] * n[2] <= n[0] * (n[1] * n[2]), flat >= 0))]
+        chk.chain(f"enumeration/bijection/{D}-domains/every-index-vector-has-a-position-below-N", hi, steps, z3.And(flat >= 0, flat < T.zi(N)), func=fq)
+        chk.chain(f"enumeration/bijection/{D}-domains/digits-of-that-position-are-the-index-vector", hi, steps, z3.And(*[a == b for a, b in zip(back, idx)]), func=fq)
+
+
+def constructor_checks(chk):
+    eng = chk.eng
+    fq = f"{MOD}.MultiDomainGrid.__init__"
+    su = Setup([1, 3])
+    cases = {
+        "not-a-list": lambda e, g: (tuple(g),), "empty-list": lambda e, g: ([],), "not-grids": lambda e, g: ([g[0], 3],),
+        "num_domains-with-two-grids": lambda e, g: (g, 2), "num_domains-zero": lambda e, g: ([g[0]], 0), "num_domains-float": lambda e, g: ([g[0]], T.from_float(2.0)),
+    }
+    for cname, mk in cases.items():
+        def thunk(eng_, mk=mk):
+            su.assume_sizes(eng_)
+            return eng_.new_object(eng_.get_class(MOD, "MultiDomainGrid"), *mk(eng_, su.grid_objects(eng_)))
+        outs = chk.explore(f"__init__/{cname}", thunk, func=fq)
+        chk.add(f"__init__/raises/{cname}", [], z3.BoolVal(bool(outs) and all(o.kind == "raise" and o.exc == "ValueError" for o in outs)), func=fq,
+                meta={"replay": {"what": "constructor"}})
 
 
 def build(chk):
-    return None
+    chunked_iterator_contract(chk)
+    enumeration_is_a_bijection(chk)
+    constructor_checks(chk)
+    setups = SETUPS_QUICK + (SETUPS_MORE if chk.tier == "thorough" else [])
+    for su in setups:
+        enumerations(chk, su)
+        integrate_chunked(chk, su)
+        integrate_vectorized(chk, su)
+
+
+def main(tier="quick", seed=0, bounded=True, proof=True):
+    chk = framework.Check("C18", tier, seed, level="proof")
+    chk.trusted += [
+        "floats are reals: sums are exact, so the order of summation (chunking) cannot matter by rounding",
+        "itertools.product enumerates the Cartesian product in lexicographic order, last factor fastest, and reads its inputs when it is built; "
+        "itertools.islice(it, n) pulls at most n items, lazily (assumed contracts, pyvc/lazyseq.py)",
+        "finite-sum algebra used by the reduction matcher: extensionality (equal ranges, equal terms), homogeneity (c * sum), range splitting",
+        "the integrand is a function of its arguments that vectorises over its last argument (premise of the property)",
+        "number of domains instantiated: 1..3 grids and 1..3 repeats of one grid; grid sizes, data, chunk size symbolic; every grid has >= 1 node",
+    ]
+    if proof:
+        build(chk)
+    return chk.finish(bounded_args=[] if bounded else None)
